@@ -66,7 +66,7 @@ def numpy_to_graph(arr, arr_idx: List[Node], graph_type):
             graph.add_edge(u, v, edge_type=edge_type)
             if np.mod(arr_val, EDGE_TO_VALUE_MAPPING["undirected"]) > 0:
                 arr_val -= EDGE_TO_VALUE_MAPPING["undirected"]
-                VALUE_TO_EDGE_MAPPING[arr_val]
+                edge_type = VALUE_TO_EDGE_MAPPING[arr_val]
                 graph.add_edge(u, v, edge_type=edge_type)
         else:
             # we only have a single edge
